@@ -186,6 +186,31 @@ def _decode(b: SSeq, encoding="utf-8", errors="strict") -> SSeq:
             for k in range(i, j):
                 out.append(_zx(es[k]) + 0xDC00)
         else:
+            real = _real_handler(errors)
+            if real is not None:
+                # a codec error handler registered by the code under test (werkzeug's
+                # 'werkzeug.url_quote'): its real source is executed on a stand-in for the
+                # UnicodeDecodeError.  Only handlers that resume right after the reported
+                # range are supported (that is what the built-in decoders assume here).
+                err = _FakeDecodeError(SSeq("bytes", list(es), n), i, j, reason)
+                try:
+                    rep, resume = c.interp.call(real, (err,), {})
+                except Unsupported:
+                    # (e.g. no quote model registered by this harness): fall back to the model
+                    h = _handlers.get(errors)
+                    if h is None:
+                        raise
+                    out.extend(h(es[i:j]))
+                    return
+                if not isinstance(resume, int):
+                    resume = int(resume)
+                if resume != j:
+                    raise Unsupported("codec error handler resuming elsewhere than at the end of the error range")
+                rep = lift(rep)
+                if rep.kind != "str":
+                    raise Unsupported("codec error handler returning bytes")
+                out.extend(rep.celems())
+                return
             h = _handlers.get(errors)
             if h is None:
                 raise Unsupported(f"decode errors={errors}")
@@ -282,6 +307,30 @@ def _decode(b: SSeq, encoding="utf-8", errors="strict") -> SSeq:
         bad(i, i + 1, "invalid start byte")
         i += 1
     return SSeq("str", out, len(out))
+
+
+class _FakeDecodeError:
+    """what a codec hands to its error handler: encoding, object, start, end, reason"""
+
+    def __init__(self, obj, start, end, reason):
+        self.encoding, self.object, self.start, self.end, self.reason = "utf-8", obj, start, end, reason
+
+
+def _real_handler(name):
+    """the Python function registered under this error-handler name by the code under test
+    (None for built-in handlers or when no interpreter is active)"""
+    import types
+
+    try:
+        f = codecs.lookup_error(name)
+    except LookupError:
+        return None
+    c = ctx()
+    if not isinstance(f, types.FunctionType) or getattr(c, "interp", None) is None:
+        return None
+    if not (getattr(f, "__module__", "") or "").startswith("werkzeug"):
+        return None
+    return f
 
 
 # custom error handlers (name -> function(list of byte BVs) -> list of code point BVs)
